@@ -62,6 +62,13 @@ func c03Nats(xs []int) string {
 
 func c03StrLit(e ast.Expr) (string, error) {
 	bl, ok := e.(*ast.BasicLit)
+	if ok && bl.Kind == token.INT { // byte key written as a number, e.g. `0: []byte("&#0;")`
+		v, err := strconv.ParseInt(bl.Value, 0, 16)
+		if err != nil || v < 0 || v > 255 {
+			return "", fmt.Errorf("integer literal %s is not a byte at %v", bl.Value, e.Pos())
+		}
+		return string([]byte{byte(v)}), nil
+	}
 	if !ok || (bl.Kind != token.STRING && bl.Kind != token.CHAR) {
 		return "", fmt.Errorf("expected string/char literal at %v", e.Pos())
 	}
